@@ -8,7 +8,7 @@
 
    Errors: Err 1 = gmsol_model::Error::Computation (checked_add_signed overflow),
            Err 2 = Error::Convert / Computation from to_signed / to_opposite_signed
-                   (SDK default cancel only),
+                   (trait default cancel only),
            Err 100 = panic of the `debug_assert_eq!(short_token_amount, 0)` in the two views
                    (debug builds only: [dbg] = true). *)
 From GV Require Import lib.Base.
@@ -59,11 +59,12 @@ Definition cancel_prog (p : pool) : res pool :=
   if pure p then Ok (mkp (is_pure p) (Z.land (long_f p) 1) (short_f p))
   else let '(l, s) := cancel_amounts (long_f p) (short_f p) in Ok (mkp (is_pure p) l s).
 
-(* SDK: the trait's default checked_cancel_amounts (crates/model/src/pool/mod.rs) *)
+(* the trait's DEFAULT checked_cancel_amounts (crates/model/src/pool/mod.rs): nets through signed deltas.
+   Neither Pool type uses it any more (the SDK pool had no override before fix c40-sdk-pool-cancel-override). *)
 Definition to_signed_ (x : Z) : res Z := of_opt E_CONV (to_signed W x).
 Definition to_opposite_signed (x : Z) : res Z :=
   s <-- to_signed_ x ;; of_opt E_COMP (sneg W s).
-Definition cancel_sdk (dbg : bool) (p : pool) : res pool :=
+Definition cancel_default (dbg : bool) (p : pool) : res pool :=
   l <-- long_amount dbg p ;;
   s <-- short_amount dbg p ;;
   let left := Z.abs (l - s) in
@@ -71,6 +72,9 @@ Definition cancel_sdk (dbg : bool) (p : pool) : res pool :=
   a <-- to_opposite_signed dl ;;
   b <-- to_opposite_signed ds ;;
   checked_apply_delta p (Some a) (Some b).
+
+(* SDK: crates/programs/src/model/pool.rs now carries the same override as the program (same text) *)
+Definition cancel_sdk (dbg : bool) (p : pool) : res pool := cancel_prog p.
 
 (* ---------- histories ---------- *)
 Inductive op :=
